@@ -188,7 +188,7 @@ func (p *Parser) parseGroupedExpression() Expression {
 func (p *Parser) parseGroupedCondition() Expression {
 	exp := p.parseGroupedExpression()
 
-	if isComparisonOperand(exp) {
+	if len(p.errors) == 0 && isComparisonOperand(exp) {
 		p.errors = append(p.errors, fmt.Sprintf("Syntax error; parentheses must enclose a condition, got the operand %s", exp.String()))
 
 		return nil
